@@ -94,6 +94,26 @@ struct SideOut {
     _io: Option<Negotiated<pipe::End>>,
 }
 
+/// `write_all`, or (for a third of the payload lengths) the same bytes through `write_vectored` with two slices:
+/// `Negotiated` has a separate vectored write path that must push pending negotiation data just the same
+async fn write_payload(io: &mut Negotiated<pipe::End>, payload: &[u8]) -> std::io::Result<()> {
+    if payload.len() % 3 != 1 {
+        return io.write_all(payload).await;
+    }
+    let mut off = 0;
+    while off < payload.len() {
+        let rest = &payload[off..];
+        let cut = (rest.len() / 2).max(1).min(rest.len());
+        let bufs = [std::io::IoSlice::new(&rest[..cut]), std::io::IoSlice::new(&rest[cut..])];
+        let n = io.write_vectored(&bufs).await?;
+        if n == 0 {
+            return Err(std::io::ErrorKind::WriteZero.into());
+        }
+        off += n;
+    }
+    Ok(())
+}
+
 async fn app_phase(mut io: Negotiated<pipe::End>, payload: Vec<u8>, expect: usize, style: Style, out: &mut SideOut) {
     macro_rules! tri {
         ($what:expr, $e:expr) => {
@@ -131,20 +151,20 @@ async fn app_phase(mut io: Negotiated<pipe::End>, payload: Vec<u8>, expect: usiz
     }
     match style {
         Style::FlushReadClose => {
-            tri!("write", io.write_all(&payload).await);
+            tri!("write", write_payload(&mut io, &payload).await);
             tri!("flush", io.flush().await);
             tri!("read", read_some(&mut io, expect, out).await);
             tri!("close", io.close().await);
             tri!("read-to-end", read_some(&mut io, usize::MAX, out).await);
         }
         Style::CloseThenRead => {
-            tri!("write", io.write_all(&payload).await);
+            tri!("write", write_payload(&mut io, &payload).await);
             tri!("close", io.close().await);
             tri!("read-to-end", read_some(&mut io, usize::MAX, out).await);
         }
         Style::ReadFirst => {
             tri!("read", read_some(&mut io, expect, out).await);
-            tri!("write", io.write_all(&payload).await);
+            tri!("write", write_payload(&mut io, &payload).await);
             tri!("close", io.close().await);
             tri!("read-to-end", read_some(&mut io, usize::MAX, out).await);
         }
